@@ -186,6 +186,25 @@ def execute(plan):
             bump(res["probes"], "shadowed_queries")
             if np.any(dbv == 0.0):
                 bump(res["probes"], "shadowed_loss_clamped_to_0dB")
+        if model in ("general", "freespace", "3gpp1"):
+            # documented: the distance-for-a-loss queries ignore the shadowing.  With it switched on they must return what they
+            # return with it switched off (deterministic), and that distance must have the asked loss.
+            want = np.sort(rs.uniform(40.0, 160.0, size=6))
+            try:
+                on_arr = np.asarray(obj.which_distance_dB(want.copy()), dtype=float)
+                on_sc = float(obj.which_distance_dB(float(want[2])))
+                obj.use_shadow_bool = False
+                off_arr = np.asarray(obj.which_distance_dB(want.copy()), dtype=float)
+                back = np.asarray(obj.calc_path_loss_dB(off_arr.copy()), dtype=float)
+            finally:
+                obj.use_shadow_bool = True
+            ok = on_arr.shape == off_arr.shape and np.allclose(on_arr, off_arr, rtol=1e-12, atol=0) and abs(on_sc - off_arr[2]) <= 1e-9 * off_arr[2]
+            valid = back > 1e-9          # distances the model clamps are outside the inverse's domain
+            if not ok or np.max(np.abs(back[valid] - want[valid]), initial=0.0) > 1e-6:
+                viol("inverse", step, "with shadowing switched on which_distance_dB(%s) = %s, with it off %s (loss there %s)" % (
+                    np.round(want, 3).tolist(), on_arr.tolist(), off_arr.tolist(), np.round(back, 6).tolist()), rel="inverse_shadow", shadow=True)
+                return
+            bump(res["probes"], "inverse_queried_while_shadowing_on")
         log.add("shadow_relations", step)
 
     def relations(step):
@@ -275,6 +294,28 @@ def execute(plan):
                     if np.max(np.abs(back2 - d[pos]) / d[pos]) > 1e-8:
                         viol("inverse", step, "which_distance(calc_path_loss(d)) != d for parameters %s" % st, rel="inverse_linear")
                         return
+                    # a caller that keeps ONE buffer of losses: refills it in place between two queries, and edits the first
+                    # answer in place (unit conversion) before asking again
+                    if int(pos.sum()) >= 2:
+                        buf = np.array(got[pos], copy=True)
+                        r1 = obj.which_distance_dB(buf)
+                        r1_copy = np.array(r1, copy=True)
+                        buf[:] = buf[::-1].copy()
+                        r2 = np.asarray(obj.which_distance_dB(buf), dtype=float)
+                        want2 = d[pos][::-1]
+                        if r2.shape != want2.shape or np.max(np.abs(r2 - want2) / want2) > 1e-9:
+                            viol("inverse", step, "which_distance_dB of a loss buffer refilled in place answers for the OLD contents", rel="inverse_buffer")
+                            return
+                        if isinstance(r1, np.ndarray):
+                            try:
+                                r1 *= 1000.0
+                            except ValueError:
+                                pass
+                        r3 = np.asarray(obj.which_distance_dB(buf), dtype=float)
+                        if np.max(np.abs(r3 - want2) / want2) > 1e-9:
+                            viol("inverse", step, "an earlier answer of which_distance_dB edited by the caller changed a later answer", rel="inverse_buffer")
+                            return
+                        del r1_copy
         # distances as a 2-D array (e.g. base stations x users), including too-small ones: same law per element
         if model != "hata":
             lo, hi = (0, 3) if model == "metis" else (-3, 3)
